@@ -173,18 +173,20 @@ Section Ledger.
   Let RT := list (op * result).
   Notation run_ops := (Proofs.run_ops cf fx true).
 
-  Lemma d_run_ops host ops : forall nb d H, Forall (wf_op cf) ops -> (nb + 2 <= cf_retries cf)%nat ->
-    sD nb d H (run_ops host ops) (Pdq d).
+  Lemma d_run_ops_acc host ops : forall acc nb d H, Forall (wf_op cf) ops -> (nb + 2 <= cf_retries cf)%nat ->
+    sD nb d H (Proofs.run_ops_acc cf fx true host ops acc) (Pdq d).
   Proof.
-    induction ops as [|o t IH]; intros nb d H WF BUD; simpl.
+    induction ops as [|o t IH]; intros acc nb d H WF BUD; simpl.
     - intros ? ?; reflexivity.
     - inversion WF as [|? ? WO WT]; subst.
       eapply safeD_bind; [apply (d_compile cf fx F1 F2 F3 BS); auto|].
       cbv beta. intros nb1 d1 H1 r LE1 E1 P1.
-      eapply safeD_bind; [apply IH; [auto | lia]|].
-      cbv beta. intros nb2 d2 H3 rest LE2 E2 P2. simpl.
-      intros h c. rewrite (P2 h c). apply P1.
+      eapply (safeD_weaken cf _ _ _ _ (Pdq d1)); [|apply IH; [auto | lia]].
+      intros nb2 d2 H3 l P2 h c. rewrite (P2 h c). apply P1.
   Qed.
+  Lemma d_run_ops host ops : forall nb d H, Forall (wf_op cf) ops -> (nb + 2 <= cf_retries cf)%nat ->
+    sD nb d H (run_ops host ops) (Pdq d).
+  Proof. intros. apply d_run_ops_acc; auto. Qed.
 
   Definition cstate := Cas.cstate key value lopt RT.
   Definition sysT := Cas.sys key value lopt RT.
